@@ -11,7 +11,7 @@ TECH = "contracts on the real functions + weakest-precondition style VC generati
 
 claims = {
  "C01": ("mechanism obligations of the commit protocol proved per function: ghost I/O protocol of the writer front end (data/meta pages -> sync -> exactly one header write to the inactive slot -> sync; no header write on error exits; header = active header with root, txid+1, allocator/WAL fields and a checksum finalised over the final values; tryCommitChangesToFile/syncNewMeta/prepareMetaBuffer); shadow-paging targets of Page.doFlush (a committed page is never written in place: first overwrite goes to a freshly allocated overwrite page, a redirected page goes back to its own unreferenced id and its overwrite page is freed deferred); publication only to the written slot; writer back end: barrier (nextCommand hands a sync out only together with every write scheduled before it, FIFO batches, verified under the monitor rule), sticky error (no I/O while in error state, cleared only by a reset sync, recorded on every message's sync handle); truncate lower bound; header validation; recovery picks the valid header with the newer txid in wrap-around order; deferred free of committed pages",
-         'Not decided: the crash-point x lost-write quantifier itself (no mechanised composition lemma), flushPages (the loop over the page cache) and the serialisation callbacks (fileCommitSerialize abstract: assumed to schedule data-area pages only), allocWALID (abstract: returns 0 or a page >= 2 different from the original). FNV collision on torn headers is assumed away; file contents are an uninterpreted function of the offset (slotAt); Schedule/Sync are monitor code whose contract defines the ghost protocol. Known findings F6 and F11 are recorded (separate obligations, not counted).'),
+         'Not decided: the crash-point x lost-write quantifier itself (no mechanised composition lemma), flushPages (the loop over the page cache) and the serialisation callbacks (fileCommitSerialize abstract: assumed to schedule data-area pages only), allocWALID (abstract: returns 0 or a page >= 2 different from the original). FNV collision on torn headers is assumed away; file contents are an uninterpreted function of the offset (slotAt); Schedule/Sync are monitor code whose contract defines the ghost protocol. Known finding F6 is recorded (separate obligation, not counted).'),
  "C05": ('position codec proved inverse for every page size 2^10..2^31 and every valid position, offset 0 <=> nil position, offsets of valid positions >= 2 pages; Offset/SplitOffset of File and of the standalone delegate against the Delegate interface contract; reader stepping: Reader.readInto delivers exactly min(rest of event, buffer) bytes, a partial read stays inside the event and never advances the page, a complete read moves to the next event id; Reader.Read returns that count; id order helpers',
          'End-to-end FIFO over the linked page chain is not decided: the cursor operations (txCursor.Read/Skip/AdvancePage/ReadEventHeader) and the write buffer (buffer.Append/ReserveHdr/CommitEvent) are abstract, so header-fit and spill stepping agreement between writer and reader are assumed, not proved. The caller-side type-safety precondition apart(r, b) is stated explicitly.'),
  "C08": ("error-path contracts: every failing vfs call in mmap/munmap/mmapUpdate/truncate/readMeta yields a non-nil error, no panic, and the old mapping or a fresh valid one is installed (F4, F10 fixed); writer back end: after a failing WriteAt/Sync no further I/O is issued until a reset sync was answered, and that sync clears the error (writeAt, execSync, Run); commit error path releases the commit locks and publishes nothing (F6 recorded)",
@@ -26,7 +26,7 @@ claims = {
          'Shrink release (initTxReleaseRegions/releaseOverflowPages, fileCommitAlloc frame), the preallocation truncate of doGrowFile and what a later plain open reports are not under contract yet.'),
  "C15": ("queue: Reader.Available/Begin/Read on a closed reader => ReaderClosed, without transaction => InactiveTx, second Begin => UnexpectedActiveTx, no transaction begun; Writer.Write/Next/Flush on a closed writer => WriterClosed; Queue.Close leaves closed reader and acker objects behind so that ACK(n>0) on a closed queue => QueueClosed without beginning a transaction and Reader() hands out the closed reader (F12 fixed); all of them change nothing. Page methods (SetBytes/Load/MarkDirty/Free/Flush/Bytes) x page and transaction state. Method x life-cycle matrix of Tx proved for all states: Commit/Rollback/Close/Page/RootPage/Alloc/AllocN/CheckpointWAL/PageSize/getPage/beginTx: finished => error kind TxFinished (or TxReadOnly for writes), read-only => TxReadOnly, out-of-range => InvalidPageID, freed => InvalidOp, no panic, and preserved(): no pre-existing location changes",
          "The type invariants wfTx / wfPage / wfReader / wfWriter / wfQueue are assumed at entry of every public method. Reader.Next, Reader.Done and Queue.Writer are not under contract; writing through a Writer obtained after Queue.Close is not covered (the property lists reading and ACKing)."),
- "C16": ("Validate <=> magic, version and checksum over all 12 protected fields; slot selection table of readValidMeta incl. signed wrap-around compare; never returns a header that does not validate; no panic under 'intact headers have distinct txids'; an intact slot 1 must be found when only slot 0 is damaged (fails for damage in the page size field of slot 0: known finding F11, replayed)",
+ "C16": ("Validate <=> magic, version and checksum over all 12 protected fields; slot selection table of readValidMeta incl. signed wrap-around compare; never returns a header that does not validate; no panic under 'intact headers have distinct txids'; an intact slot 1 is found when slot 0 is damaged, whatever its page size field says (F11 fixed: findSecondMeta searches every supported page size, verified with a loop invariant)",
          "FNV-1a/32 is an uninterpreted function (collision on multi-byte damage assumed away); file contents are an uninterpreted function of the offset."),
  "C17": ("Pending == tail.id - start.id and Active == tail.id - start.id (0 on an empty queue) as functions of the persisted header only, with start = read position if set else head; lemma: the two different emptiness tests used by Pending and Active agree on every offset the queue writes; Reader.Available == endID - id (0 without a position); Flushed callback reports exactly the flushed count and only after success; ACKed callback and totals report exactly n and only after the commit; id order helpers and position parsing",
          "Totals over a history are the (unmechanised) induction over these per-operation contracts; that tail.id advances by the number of events of a flush and read.id by n of an ACK is part of the abstract doFlush/initACK; reader id stepping (readInto/Next) is abstract."),
